@@ -96,7 +96,7 @@ def build_datasets(case, tmp, with_rid=True, label_enc=None, id_prefix=""):
             f["mults"],
             key_arity=case["key"],
             n_noise=case["n_noise"],
-            sep=case.get("sep", 3.0),
+            sep=f.get("sep", case.get("sep", 3.0)),
             file_index=fi,
             with_rid=with_rid,
             shared_prefix_keys=case.get("shared_prefix", False),
